@@ -14,14 +14,12 @@ ASSUME = [
     "arbitrary source TEXT is outside the claim: a 2-byte symbolic input through the real lexer does not leave symbolic execution (DESIGN C12)",
     "stubs as in C10 / C06",
 ]
-KF_SHIFT = "num:arithmetic-shift-amount-unchecked"
 KF_RESIDUE = "sym:rollback-keeps-definition-in-recycled-slot"
 
 
 def plan(tier):
     q = [
-        {"h": "num_arithmetic_shift_total", "spec": 0, "sym": "n: isize, m: isize",
-         "classify": {KF_SHIFT: r"shift (left|right) with overflow|negate with overflow"}, "known": {KF_SHIFT: "num_arithmetic_shift_total__kf"}},
+        {"h": "num_arithmetic_shift_exact", "spec": 0, "sym": "n: isize, m: isize"},
         {"h": "num_abs_i", "spec": 0, "sym": "x: isize"},
         {"h": "sym_rollback_with_recycled_slot", "spec": 1, "sym": "f in {1,2,3}",
          "classify": {KF_RESIDUE: r"reused a released slot"}, "known": {KF_RESIDUE: "sym_rollback_with_recycled_slot__kf"}},
